@@ -331,8 +331,11 @@ def scen_family(env, typ, chunk, nchunks, second=None, small=False, nburst=3):
         elif t2 == 'not':
             blocks.append(('not', [S2[2 + env.choose(2, 's2a')]]))
         elif t2 == 'compare':
-            if b0[0] != 'func':
-                return
+            # Compare needs a numeric input: only the numeric FuncBlock functions qualify ('kw' returns a tuple -
+            # comparing it with the thresholds is the user's TypeError, not a property of edzed)
+            if b0[0] != 'func' or b0[1] == 'kw':
+                from symx.core import PathAbort
+                raise PathAbort()
             blocks.append(('compare', ('cb', 0), 3, 8))
         else:
             blocks.append(('override', ('cb', 0), S2[env.choose(2, 's2a')], None))
@@ -394,7 +397,9 @@ def shards(tier):
     if tier == 'thorough':
         for t in types:
             for t2 in ('and', 'or', 'xor', 'not', 'override', 'compare'):
-                n = 8 if t in ('and', 'or', 'xor', 'override') else 2
+                if t2 == 'compare' and t != 'func':
+                    continue          # Compare is only put behind a numeric FuncBlock
+                n = 8 if t in ('and', 'or', 'xor', 'override', 'func') else 2
                 for c in range(n):
                     out.append({'name': f'family2 {t}+{t2} chunk{c}', 'scenario': 'scen_family',
                                 'params': {'typ': t, 'chunk': c, 'nchunks': n, 'second': t2}, 'cost': 50})
